@@ -95,7 +95,7 @@ class TLCResult(object):
 def run_tlc(module, cfg, env=None, workers=None, timeout=3600, simulate=None, extra=(),
             must_pass=True, cwd=SPEC, deadlock=False):
     md = tempfile.mkdtemp(prefix='md_', dir=scratch())
-    cmd = ['java', '-XX:+UseParallelGC', '-Xmx%s' % os.environ.get('VERIF_TLC_HEAP', '10g'), '-cp', JAR, 'tlc2.TLC',
+    cmd = ['java', '-XX:+UseParallelGC', '-Xss64m', '-Xmx%s' % os.environ.get('VERIF_TLC_HEAP', '10g'), '-cp', JAR, 'tlc2.TLC',
            '-workers', str(workers or WORKERS), '-metadir', md, '-noGenerateSpecTE',
            '-config', cfg]
     if simulate:
